@@ -176,17 +176,41 @@ def allReadings (ct : CaseTable) (sp : Spellings) (s : Name) : List RReading :=
   let bucket := (sp.get? sl).getD []
   exactIn s false 0 bucket ++ titleIn ct s bucket ++ level3 ct sp s sl ++ level4 sp sl
 
+/-- The names under which `unyt.physical_constants` documents a constant that are ALSO unit names
+    (the gravitational constant `G` / the gauss, the speed of light `c`, ħ, the electron and proton
+    masses, the solar / Jupiter / Earth masses with their spellings, the six Planck quantities).
+    The top-level namespace imports the constants first, so for these names — and only these —
+    `unyt.<name>` may be the constant (a quantity) rather than the unit.  Written from the documented
+    table of constants; `shadowing_is_documented` pins the regenerated list of shadowed names to it,
+    so a unit attribute that vanishes from the top level, or is rebound to something that is not a
+    unit, fails `attributes_agree`. -/
+def shadowedByConstantsS : List String := [
+  "G", "hbar", "c", "Msun", "msun", "m_sun", "M_Sun", "M_sun", "m_Sun", "solar_mass",
+  "mass_sun", "Mjup", "jupiter_mass", "Mearth", "earth_mass", "me", "electron_mass", "mp",
+  "proton_mass", "m_pl", "planck_mass", "l_pl", "planck_length", "t_pl", "planck_time", "T_pl",
+  "planck_temperature", "q_pl", "planck_charge", "E_pl", "planck_energy"]
+
+def shadowedByConstants : List Name := [
+  72, 1060688215247064924265, 100, 1023794815060611694670, 1023794815060611694702,
+  2147053343993991936738328686, 2147053343993851199249973326, 2147053343993991936738328654,
+  2147053343993851199249973358, 91018018563876977047705422606229595450125966921648390013044,
+  19803071774629723038253348312040756877874692206, 1042241559134302371918,
+  400301478992458243468531120062069963085578120688641875559305538602795115,
+  4259308279877045795829984891240526,
+  91018018563876977047705422606229402022170072676068927471718, 213909614,
+  839493047271991790206516975500409433601850679814659077984840107235038101241958, 236978286,
+  190878619667271730169549522429499446298416542025686026064595255409, 1005348048996627644526,
+  190878619667271730169549522429499324603726806302957179785751560305, 1005348048996627644525,
+  759885989372219952276222384222356851128797685482768352358132885069015428366449,
+  1005348048996627644533, 167841551156951537195971476417148546170682095278213041945028067441,
+  1005348048996627644501,
+  29943934028539584514477557228202455570051406377950131018013790268373118077663643415560839428538075180229984369,
+  1005348048996627644530,
+  738174927778890012035568450276206763841898242444158540615967349706094802894961,
+  1005348048996627644486,
+  882915039325535256318170734649626860792593676838643246497043588003514713899121]
+
 /-- `"°C"` -/
 def degreeSignC : Name := 142606513
-
-/-- KNOWN FINDING C14 `unusable|word+alias|°`: the spellings  <prefix word>°C  and
-    <Prefix word>°C  (kilo°C, Kilo°C, …) are listed names but cannot be parsed: the parser rewrites
-    `°` to `deg` before the alias table is consulted and `kilodegC` is not a name.
-    This is the explicit guard of `every_name_resolves_correctly_partial`. -/
-def isWordPrefixedDegreeC (ct : CaseTable) (s : Name) : Bool :=
-  let n := Name.len s
-  decide (2 < n) && Nat.beq (Name.drop (n - 2) s) degreeSignC &&
-    (let w := Name.take (n - 2) s
-     prefixWords.any fun (x, _) => Nat.beq x w || Nat.beq (Name.title ct x) w)
 
 end Unyt.Ref.C14
